@@ -123,6 +123,8 @@ func runHashBytes(c *core.Ctx) {
 		name := kn(c.P.FuncName(hs.fn))
 		count[name]++
 		base := fmt.Sprintf("hash:%s#%d", name, count[name])
+		ftags := siteTags(c, r, hs.fn)
+		c.SetTags(ftags...)
 		if hs.create == nil {
 			c.Fail(base+":blob", hs.from.Pos(), "an index entry names the digest computed at %s but no blob is created with that digest in %s", c.P.Pos(hs.from.Pos()), name)
 			continue
@@ -197,6 +199,7 @@ func runHashBytes(c *core.Ctx) {
 				okCmp = true
 			}
 		}
+		c.SetTags(append(append([]string{}, ftags...), "expected-digest")...)
 		switch {
 		case !found:
 			c.Fail(base+":expected-digest", hs.from.Pos(), "%s parses a digest from the request but never compares it with the digest computed from the received bytes at %s: content would be accepted under a reference it does not hash to", name, c.P.Pos(hs.from.Pos()))
@@ -219,6 +222,7 @@ func runContentFirst(c *core.Ctx) {
 		for _, ins := range hs.inserts {
 			count[name]++
 			key := fmt.Sprintf("insert:%s#%d", name, count[name])
+			c.SetTags(siteTags(c, r, hs.fn)...)
 			if hs.create == nil {
 				c.Fail(key, ins.Pos(), "index entry for a computed digest without a blob creation in the same function")
 				continue
@@ -280,3 +284,22 @@ func runContentFirst(c *core.Ctx) {
 }
 
 var _ = types.Typ
+
+// siteTags: "push" (manifest push handler), "referrer" (referrers update helpers), "ingest" (shared store
+// functions), else "other".
+func siteTags(c *core.Ctx, r *Roles, fn *ssa.Function) []string {
+	if core.FuncPkgPath(fn) == r.StorePath {
+		return []string{"ingest"}
+	}
+	t := handlerTags(c, r, fn)
+	var out []string
+	for _, x := range t {
+		if x == "push" || x == "referrer" {
+			out = append(out, x)
+		}
+	}
+	if len(out) == 0 {
+		out = []string{"other"}
+	}
+	return out
+}
